@@ -213,6 +213,8 @@ def job_save(res, sc):
 
 def replayer(bld):
     def rp(path, c):
+        if c.get('replay') in ('parse', 'parse-error'):
+            import c20; return c20.replayer(None)(path, c)
         wd = os.path.join(bld['dir'], 'wd'); os.makedirs(wd, exist_ok=True)
         o = native_run(bld, {'scenario': c['scenario'], 'workdir': wd}, 'c13')
         same = bool(o['same'][0])
@@ -224,10 +226,13 @@ def main(tier):
     chk = Check('C13', tier, '4/C13')
     bld = opts_build()
     jobs = [(job_save, (sc,)) for sc in (0, 1, 2, 3, 4, 5, 6, 7)]
+    # the way back: what a config file says is what parse() makes effective when nothing on the command line overrides it - every scalar option symbolic, string options as ordinary names and as "/dev/null" (C20's parse model)
+    import c20
+    jobs += [(c20.job_parse, ('cfg', sm)) for sm in ('cfg', 'cfg-null')]
     chk.bounds = {'scenarios': SCEN, 'symbolic': 'the value held by every entry of the variables map and every bound member variable (one symbol per effective value), every bunch current; f_s zero / non-zero explored separately'}
     chk.assumptions = ['reader contract trusted (boost::program_options config parser: key=value, repeated keys of a vector option accumulate, a float survives the decimal round trip iff >= 9 digits, a double iff >= 17)',
                        'std::ostream inserters are a recorder (kind, value term, precision in force); boost::program_options::variables_map::operator[] is a lookup in the snapshot\'s std::map',
-                       'options without a getter in this build (OpenGL version, OpenCL device, compatibility options) and --config chains deeper than one are outside', 'the reader half (C20) is not decided']
+                       'options without a getter in this build (OpenGL version, OpenCL device, compatibility options) and --config chains deeper than one are outside', 'the reader half is C20\'s parse() obligations for values given in a config file (run here as well); the text format itself is trusted to boost']
     chk.stubs = ['std::ofstream / operator<<: recorder', 'abstract_variables_map::operator[]: red-black tree lookup', 'inovesa_version(): fixed string', 'C++ exceptions: unwinding to the enclosing invoke with type matching over the IR\'s type_info objects']
     chk.replayer = replayer(bld)
     chk.add(run_jobs(jobs, budget=600))
